@@ -234,7 +234,7 @@ class GaussianCovCost(BaseCost):
         y: None
             Ignored. Included for API consistency by convention.
         """
-        X = as_2d_array(X)
+        X = as_2d_array(X, dtype=np.float64)
         self._param = self._check_param(self.param, X)
 
         if self.param is not None:
